@@ -167,7 +167,7 @@ def validate_traces(inst, exp, rrs, weak=None):
     det = run_tlc("FlowTrace", "ft.cfg", files=files, workers=1, timeout=300, cfgtext=trace_cfg(weak=weak), depth_first=False)
     return det, mon, drows
 
-def jitter_variants(rng, n, bufs=(1, 2, 3, 128), procs=()):
+def jitter_variants(rng, n, bufs=(1, 2, 3, 128), procs=(), fixed_ctl=False):
     """schedule diversity: hook jitter, buffer sizes, and per-process command durations
     (some processes slow, so that later tasks / other branches finish long before)"""
     vs = []
@@ -177,7 +177,7 @@ def jitter_variants(rng, n, bufs=(1, 2, 3, 128), procs=()):
         if i % 4 != 0:
             env["VERIF_JITTER"] = str(rng.randrange(1, 10**6))
             env["VERIF_JITTER_US"] = str(rng.choice([100, 300, 1000]))
-        if procs and i % 2 == 1:
+        if procs and i % 2 == 1 and not fixed_ctl:
             for p in rng.sample(list(procs), max(1, len(procs) // 2)):
                 ctl[p + ".sleep"] = rng.choice(["0.03", "0.08", "0.15"])
         vs.append(dict(env=env, bufsize=rng.choice(bufs), ctl=ctl))
